@@ -67,9 +67,19 @@ pub(crate) fn generate_operation_text<'a, TCompilationProfile: CompilationProfil
 }
 
 /// The content of a query text module. The query text is the body of a single-quoted
-/// JavaScript string, so an apostrophe in it (e.g. in a string argument) must be escaped.
+/// JavaScript string, so an apostrophe in it (e.g. in a string argument) must be escaped,
+/// and so must the backslashes of GraphQL string escapes: they are meant for the GraphQL
+/// parser, not for the JavaScript one. The only backslashes meant for JavaScript are the
+/// line continuations of the pretty-printed text.
 pub(crate) fn query_text_file_content(query_text: &QueryText) -> String {
-    format!("export default '{}';", query_text.0.replace('\'', "\\'"))
+    format!(
+        "export default '{}';",
+        query_text
+            .0
+            .replace('\\', "\\\\")
+            .replace("\\\\\n", "\\\n")
+            .replace('\'', "\\'")
+    )
 }
 
 pub fn hash(data: &str, algorithm: PersistedDocumentsHashAlgorithm) -> String {
